@@ -196,8 +196,13 @@ def gauge_case(ctx, idx, rng):
     L = int(rng.integers(4, 8 if ctx.tier == 'quick' else 9))
     i = idx % (L - 1)
     ukind = ('random', 'identity', 'swap', 'phases', 'rotation')[(idx // 7) % 5]
-    kind = str(rng.choice(['complex', 'real', 'hermitian', 'zero-padded']))
-    t, v = coeffs(rng, L, kind)
+    kind = str(rng.choice(['complex', 'real', 'hermitian', 'zero-padded'] + (KINDS + ['free', 'no-hopping'] if idx % 2 else [])))
+    if kind in ('free', 'no-hopping'):
+        # one of the two coefficient tensors identically zero (free fermions / pure interaction)
+        t, v = coeffs(rng, L, 'complex')
+        t, v = (t, np.zeros_like(v)) if kind == 'free' else (np.zeros_like(t), v)
+    else:
+        t, v = coeffs(rng, L, kind)
     u2 = unitary(rng, ukind)
     ctx.case(('gauge', f'L{L}', f'i{"first" if i == 0 else ("last" if i == L - 2 else "mid")}', ukind, kind), sample={'L': L, 'i': i, 'u': u2, 'kind': kind},
              info={'L': L, 'i': i, 'u': u2, 'tkin': t, 'vint': v})
